@@ -1,25 +1,28 @@
 #!/bin/bash
-# tools/benigncheck.sh <worktree> <id>    runs every quick check against a property-preserving change
+# tools/benigncheck.sh <worktree> <id> [checks...]   runs every quick check (or the named ones) against a property-preserving change
 # (false-alarm test): build + existing suite in the worktree, then apply to /repo, run all checks, revert.
-WT="$1"; ID="$2"; OUT=/verif/benign/$ID; mkdir -p "$OUT"
+WT="$1"; ID="$2"; shift 2; CHECKS="$*"; [ -z "$CHECKS" ] && CHECKS="C01 C02 C03 C04 C05 C06 C07 C08 C09 C10 C11 C12 C14 C15 C17 C18 C19 C20"
+ROOT=$(cd "$(dirname "$0")/.." && pwd); REPO=${VERIF_REPO:-/repo}
+OUT=$ROOT/benign/$ID; mkdir -p "$OUT"
 export GOFLAGS=-mod=mod GOPROXY=off
 cd "$WT" || exit 2
+git add -N . 2>/dev/null   # new source files belong to the change
 git diff HEAD -- . ':(exclude)*_test.go' ':(exclude)*.md' > "$OUT/patch.diff"
 [ -f BENIGN.md ] && cp BENIGN.md "$OUT/BENIGN.md"
 go build ./... >/dev/null 2>"$OUT/build.log" && BUILD=ok || BUILD=FAIL
 go test -vet=off -count=1 ./... > "$OUT/suite_with_change.log" 2>&1 && SUITE=pass || SUITE=FAIL
 echo "build=$BUILD suite=$SUITE"
-cd /verif
-if ! git -C /repo diff --quiet; then echo "/repo dirty"; exit 2; fi
-git -C /repo apply "$OUT/patch.diff" || { echo "patch does not apply"; exit 2; }
+cd "$ROOT"
+if ! git -C "$REPO" diff --quiet; then echo "$REPO dirty"; exit 2; fi
+git -C "$REPO" apply "$OUT/patch.diff" || { echo "patch does not apply"; exit 2; }
 rm -rf .work/evidence.benign && cp -r evidence .work/evidence.benign
 RES=""
-for p in C01 C02 C03 C04 C05 C06 C07 C08 C09 C10 C11 C12 C14 C15 C17 C18 C19 C20; do
+for p in $CHECKS; do
   ./check $p quick > "$OUT/check_$p.log" 2>&1; rc=$?
   rule=$(grep '^violation rule=' "$OUT/check_$p.log" | sed 's/^violation rule=\([^ ]*\).*/\1/' | sort | uniq -c | sort -rn | head -3 | tr '\n' ' ')
   echo "  $p exit=$rc $rule"
   RES="$RES\"$p\": $rc, "
 done
-git -C /repo checkout -- . && git -C /repo clean -fdq
+git -C "$REPO" checkout -- . && git -C "$REPO" clean -fdq
 rm -rf evidence && mv .work/evidence.benign evidence
 echo "{\"id\": \"$ID\", \"build\": \"$BUILD\", \"suite\": \"$SUITE\", \"checks\": {${RES%, }}}" > "$OUT/meta.json"
